@@ -21,6 +21,7 @@ def cfg : Cfg :=
     linuxFilter := Gen.C10.linuxSkipsPartitions
     lockedRun := Gen.C10.runUnderLock
     lockedClear := Gen.C10.clearUnderLock
-    rkAccumulate := Gen.C10.rkAccumulates }
+    rkAccumulate := Gen.C10.rkAccumulates
+    sampleUnderLock := Gen.C10.sampleUnderLock }
 
 end Psutil.C10
